@@ -21,7 +21,7 @@
 -/
 import MosVerif.Model.Wire
 -- @component upreply MosVerif.UpReply.run
--- @component uprecords MosVerif.UpReply.run
+-- @component uprecords MosVerif.UpReply.runRecords
 namespace MosVerif.UpReply
 open MosVerif MosVerif.Wire
 
@@ -618,5 +618,11 @@ def run (case impl : String) : String × String :=
       | .resp => (match firstAn c with | some n => toString n | none => echoAn)
       | _ => echoAn
     (s!"next=ok first={first} mem=ok lost={lost} an={an}", verdict c impl)
+
+/-- `uprecords`: the same run on the `valid` scripts; here a probe that is not answered with the record the server
+    sent (address and ttl) is the point of the case -/
+def runRecords (case impl : String) : String × String :=
+  let r := run case impl
+  (r.1, if r.2 == "viol:stopped-serving" then "viol:C08:reply-records-not-delivered-as-sent" else r.2)
 
 end MosVerif.UpReply
